@@ -25,13 +25,16 @@ RULE = (
     "(post-competition model)} x learner {svc, tree (ExtraTrees, no bootstrap), knn (distance weighted), linear} x "
     "folds 2..5, pi1 in {0.2,0.4,0.6}, 300..1500 spectra, rows shuffled, every second replicate with subset_max_train = 55% of the table, every third with the prediction streamed in chunks of 37% of the table; per replicate FDP at alpha in "
     "{0.01,0.05,0.1} at PSM and peptide level. small: tiny tables (5..15 true positives) scored directly through "
-    "assign_confidence. A cell is VIOLATED iff mean(FDP) - alpha > 0.25*alpha + 0.005 + 6*SE, HELD iff mean(FDP) <= "
+    "assign_confidence. coarse: 800 paired spectra with scores rounded to a grid {0.75, 1.5} and clipped to 3 or 5 levels (20..40% of the "
+    "null spectra tie their target and decoy exactly), pi1 {0.15, 0.4}, straight through assign_confidence, 20 alphas 0.05..0.71, "
+    "judged without the learning slack (mean(FDP) - alpha > 0.002 + 6*SE). A cell is VIOLATED iff mean(FDP) - alpha > 0.25*alpha + 0.005 + 6*SE, HELD iff mean(FDP) <= "
     "alpha + 3*SE, otherwise inconclusive (reported, does not fail). Non-trivial = replicate with >= 1 accepted "
     "target at alpha = 0.1; distinct = replicate seeds."
 )
 ASSUMPTIONS = [
     "statistical decision: exchangeability holds by construction of the simulator only; false-alarm probability per cell < 1e-8 under the property",
     "the 0.25*alpha slack covers the known small finite-sample liberal bias of cross-validated semi-supervised rescoring",
+    "coarse cells involve no learning: the (D+1)/T estimate controls E[FDP] exactly when null targets and decoys are exchangeable, so no slack is granted there; SE floor 0.2*alpha/sqrt(R) (0.5 elsewhere)",
     "learners emitting fewer than three distinct values are excluded (the default PEP estimator refuses them)",
 ]
 CASE_TIMEOUT = 1200
